@@ -323,7 +323,11 @@ func (env *SpecEnv) quant(x EQuant) Value {
 			ranges = append(ranges, f)
 		}
 	}
-	body := n.evalTerm(x.Body, types.Typ[types.Bool])
+	ex.vc.noDefine++ // nothing that mentions a bound variable may be hoisted into a top-level definition
+	body := func() Term {
+		defer func() { ex.vc.noDefine-- }()
+		return n.evalTerm(x.Body, types.Typ[types.Bool])
+	}()
 	if !isBoolType(body.T) {
 		sfail("quantifier body is not boolean: %s", exprString(x.Body))
 	}
